@@ -54,6 +54,7 @@ func createCron(node gen.Node) *cron {
 			return
 		}
 		actionTime := time.Now().Truncate(time.Minute)
+		fired := make(map[*cronJob]bool)
 		for {
 
 			item, ok := c.spool.Pop()
@@ -65,6 +66,11 @@ func createCron(node gen.Node) *cron {
 			if cj.disable == true {
 				continue
 			}
+			if fired[cj] == true {
+				// spooled more than once (EnableJob pushes a job that is already in the spool)
+				continue
+			}
+			fired[cj] = true
 
 			// check if actionTime is actually now:
 			// - no time adjustment happened,
